@@ -68,6 +68,12 @@ Proof.
   apply qlt_true in E. lra.
 Qed.
 
+Lemma due_spec : forall a T,
+  (0 < T -> due a T = a + T) /\ (T <= 0 -> due a T = a) /\ a <= due a T /\ (0 <= T -> due a T <= a + T).
+Proof.
+  intros a T. split; [apply due_pos|]. split; [apply due_nonpos|]. split; [apply due_ge|apply due_le].
+Qed.
+
 Lemma deadline_pos : forall a i, 0 < i -> deadline a (Some i) = Some (a + i).
 Proof. intros a i Hi. rewrite deadline_due, (due_pos _ _ Hi). reflexivity. Qed.
 
